@@ -1,6 +1,6 @@
 """C04: memory safety and write confinement."""
 from .api import api_queries, api_query, SCALE
-from .methods import METHODS, BY_NAME, method_query
+from .methods import bf_core_query, METHODS, BY_NAME, method_query
 
 BUILD_ARGS = {"scale": None}
 QUICK_METHODS = ["md5crypt", "nt", "bigcrypt", "descrypt", "bsdicrypt", "sunmd5", "bcrypt", "bcrypt_x", "yescrypt", "scrypt"]
@@ -33,4 +33,5 @@ def queries(tier, seed, build):
     if tier == "thorough":
         for n, s in (("sha1crypt", 420), ("sunmd5", 400)):
             qs.append(method_query(BY_NAME[n], "c04-%s-overlong" % n, max_s=s, max_p=4, at_base=True, timeout=3000))
+    qs.append(bf_core_query('c04-bcrypt-core'))
     return qs
